@@ -54,6 +54,8 @@ def instances_for(prop, tier, seed):
         # several changes pending when idle is answered / changes while a request is in flight
         add(script='one', prefix='inflight', k=k - 1, budget={'change': 2, 'tick': 1})
         add(script='none', k=k, budget={'change': 2, 'partial': 1, 'tick': 1})
+        if prop == 'C04':
+            add(script='one', k=k + 1, budget={'change': 1, 'faults': ['write_error']})
         if not q:
             add(script='listok', k=k, budget={'change': 1, 'tick': 1})
             add(script='mixed', prefix='after_reply', k=k, budget={'cancel': 1, 'tick': 1})
@@ -76,6 +78,8 @@ def instances_for(prop, tier, seed):
         for size in ((0, 1, 2, 3, 5) if q else (0, 1, 2, 3, 4, 5, 7)):
             for limit in ((1, 2, 3) if q else (1, 2, 3, 4)):
                 out.append({'family': 'art', 'size': size, 'limit': limit})
+        out.append({'family': 'art', 'size': 3, 'limit': 2, 'two': True})
+        out.append({'family': 'art', 'size': 5, 'limit': 3, 'two': True})
     if prop == 'C18':
         for verdict in ('OK', 'ACK', 'close', 'garbage'):
             out.append({'family': 'password', 'verdict': verdict})
@@ -116,7 +120,8 @@ def run_scenario(I, P, pl):
 
 def observe(S):
     """plain python description of what happened (used by the judges and compared with native replays)"""
-    obs = {'steps': list(S.steps), 'lines': [l.decode('latin1') for l in S.server.lines], 'violations': list(S.server.violations),
+    consumed = bytes(S.t.stream[:S.t.pos])
+    obs = {'changed_consumed': consumed.count(b'changed: ') if not consumed.endswith(b'changed: ') else consumed.count(b'changed: '), 'steps': list(S.steps), 'lines': [l.decode('latin1') for l in S.server.lines], 'violations': list(S.server.violations),
            'changed_written': [n.decode() for n in S.server.changed_written], 'events': [], 'callers': [], 'flags': sorted(S.flags),
            'loop_done': S.loop_done, 'server_idle': S.server.idle, 'transport_dropped': S.t.dropped, 'multi_changed': S.server.multi_changed, 'noidle_inside_idle_reply': S.server.noidle_inside_idle_reply}
     for e in S.events:
@@ -183,7 +188,7 @@ def judge_c01(obs):
 
 def judge_c04(obs):
     got = [e[7:] for e in obs['events'] if e.startswith('change:')]
-    want = obs['changed_written']
+    want = obs['changed_written'][:obs.get('changed_consumed', len(obs['changed_written']))]
     if got != want:
         return 'events delivered %s, the server reported %s' % (got, want)
     return None
@@ -247,7 +252,7 @@ def classes_c04(obs):
     ks = []
     if obs['multi_changed']:
         ks.append('F-C04-a')
-    if obs['noidle_inside_idle_reply']:
+    if obs['noidle_inside_idle_reply'] or 'idle_reply_dropped' in obs['flags']:
         ks.append('F-C04-b')
     return ks
 
@@ -339,6 +344,17 @@ def run_art(P, res, pl):
                 other_err = 52
                 S.server.custom = art_server(picture, limit, False, None, 52)
         S.connect(); S.poll_loop()
+        if pl.get('two'):
+            # a first lookup on the same connection for a song without any picture, through a clone of the client
+            real = S.server.custom
+            S.server.custom = art_server(None, limit, False, None, None)
+            S.callers[0].script.insert(0, ('art', b'other'))
+            S.callers[0].client = S.clone_client()
+            S.issue(0); S.settle(tick=False)
+            if not S.callers[0].results or outcome_of(S.callers[0].results[0][1])[0] != 'none':
+                raise InternalError('first lookup should find nothing')
+            S.callers[0].results = []
+            S.server.custom = real; S.server.art_requests = []
         S.issue(0)
         extra = I.ctx.choose(2, 'notify')
         if extra:
@@ -380,7 +396,7 @@ def run_art(P, res, pl):
                 bad = bad or 'too many requests: %d' % len(reqs)
         res.cls('art source %d' % src, nontrivial=True)
         if bad:
-            res.violations.append({'what': bad, 'input': {'scenario': pl, 'source': src, 'mime': mime is not None}})
+            res.violations.append({'what': bad, 'input': {'scenario': pl, 'source': src, 'mime': mime is not None, 'other_err': other_err}})
         if len(res.samples) < 1:
             res.samples.append({'size': size, 'limit': limit, 'source': src, 'requests': [r.decode() for r in reqs]})
         res.take_stats(pr.ctx.stats); pr.ctx.stats.__init__()
@@ -499,12 +515,18 @@ def replay_for(prop, rec):
         return bad, 'native: connect=%s lines=%s' % (conn, lines)
     if pl.get('family') == 'art':
         src = inp.get('source', 0)
-        spec = '%d,%d,%d,%d' % (pl['size'], pl['limit'], src if src < 3 else 3, 1 if inp.get('mime') else 0)
-        out = run_replay(['client', 'art:song', '-', 'OK', spec, 'loop', 'issue0'])
+        nsrc = 4 if inp.get('other_err') else (src if src < 3 else 3)
+        spec = '%d,%d,%d,%d' % (pl['size'], pl['limit'], nsrc, 1 if inp.get('mime') else 0)
+        if pl.get('two'):
+            out = run_replay(['client', 'art:other;art:song', '-', 'OK', spec, 'loop', 'issue0'] + ['loop', 'deliver'] * 12 + ['poll0', 'issue0'])
+        else:
+            out = run_replay(['client', 'art:song', '-', 'OK', spec, 'loop', 'issue0'])
         if 'panic' in out:
             return True, 'native run panics'
         picture = bytes([0x41 + (i % 5) if i % 3 else 10 for i in range(pl['size'])])
-        res_ = out.get('result0', ['?'])[0].partition(' => ')[2]
+        res_ = out.get('result0', ['?'])[-1].partition(' => ')[2]
+        if inp.get('other_err'):
+            return (not res_.startswith('ack 52 ')), 'native: result %s' % res_
         if src == 3:
             bad = res_ != 'none'
         else:
@@ -512,6 +534,8 @@ def replay_for(prop, rec):
         offs = {}
         for l in out.get('artreq', []):
             p = l.split()
+            if p[1] != 'song':
+                continue
             offs.setdefault(p[0], []).append(int(p[-1]))
         bad = bad or any(b <= a for v in offs.values() for a, b in zip(v, v[1:])) or (src == 0 and 'albumart' in offs)
         return bad, 'native: result %s requests %s' % (res_, out.get('artreq', []))
